@@ -138,7 +138,8 @@ class Ctx:
         workers = workers or NCPU
         md = tempfile.mkdtemp(prefix="md_", dir=self.scratch)
         e = dict(os.environ)
-        jto = "-Xmx%s -Xss64m" % heap
+        # TLC's own temporary files go into the check's scratch directory (removed with it), not into /tmp
+        jto = "-Xmx%s -Xss64m -Djava.io.tmpdir=%s" % (heap, md)
         if deque:
             jto += " -Dtlc2.tool.queue.IStateQueue=StateDeque"
         e["JAVA_TOOL_OPTIONS"] = jto
